@@ -38,3 +38,30 @@ func TestVerifReplayRenderPalette(t *testing.T) {
 		}()
 	}
 }
+
+// Every value of every stream is printed exactly once and lines come out in timestamp order, for
+// every order of the streams in the result (so the output does not depend on map iteration order).
+func TestVerifReplayRenderOrder(t *testing.T) {
+	mk := func(perm []int) lokiapi.QueryResponseData {
+		all := []lokiapi.Stream{
+			{Stream: lokiapi.NewOptLabelSet(lokiapi.LabelSet{"container": "a"}), Values: []lokiapi.LogEntry{{T: 30, V: "a30"}, {T: 10, V: ""}, {T: 50, V: "a50\n"}}},
+			{Stream: lokiapi.NewOptLabelSet(lokiapi.LabelSet{"container": "b"}), Values: []lokiapi.LogEntry{{T: 20, V: "b20"}, {T: 60, V: "b60"}}},
+			{Stream: lokiapi.NewOptLabelSet(lokiapi.LabelSet{"container": "c"}), Values: []lokiapi.LogEntry{{T: 40, V: "c40"}}},
+		}
+		var streams lokiapi.Streams
+		for _, i := range perm {
+			streams = append(streams, all[i])
+		}
+		return lokiapi.QueryResponseData{Type: lokiapi.StreamsResultQueryResponseData, StreamsResult: lokiapi.StreamsResult{Result: streams}}
+	}
+	want := "a \nb b20\na a30\nc c40\na a50\nb b60\n"
+	for _, perm := range [][]int{{0, 1, 2}, {0, 2, 1}, {1, 0, 2}, {1, 2, 0}, {2, 0, 1}, {2, 1, 0}} {
+		var out bytes.Buffer
+		if err := renderResult(&out, renderOptions{timestamp: false, container: true, color: false}, mk(perm)); err != nil {
+			t.Fatalf("REPRODUCED: renderResult fails: %v", err)
+		}
+		if out.String() != want {
+			t.Fatalf("REPRODUCED: streams in order %v render as %q, want %q (every value once, in time order)", perm, out.String(), want)
+		}
+	}
+}
